@@ -336,7 +336,11 @@ func (svr *Server) Close() error {
 		svr.lntls.Close()
 	}
 
-	for _, svc := range svr.svcs {
+	svr.mu.Lock()
+	svcs := svr.svcs
+	svr.mu.Unlock()
+
+	for _, svc := range svcs {
 		log.Tracef("Stopping service: %d", svc.id)
 		svc.stop()
 	}
